@@ -8,7 +8,7 @@ import sys
 
 VERIF = os.path.dirname(os.path.dirname(os.path.abspath(__file__)))
 pid, n = sys.argv[1], sys.argv[2]
-src = "/tmp/wt/%s/seeded" % pid
+src = "%s/%s/seeded" % (os.environ.get("WT", "/tmp/wt"), pid)
 patch, demo, meta = [os.path.join(src, f % n) for f in ("change%s.diff", "demo%s.py", "meta%s.json")]
 r = subprocess.run([sys.executable, os.path.join(VERIF, "tools", "seeded.py"), "verify", patch, demo], capture_output=True, text=True)
 print(r.stdout[-700:], r.stderr[-300:])
